@@ -33,9 +33,11 @@ def main():
     pid, which = args[0].upper(), args[1]
     pkg = args[args.index("--pkg") + 1] if "--pkg" in args else None
     tier = args[args.index("--tier") + 1] if "--tier" in args else "quick"
-    src = f"/tmp/mut-c{pid[1:]}-out/{which}"
-    if not os.path.exists(os.path.join(src, "patch.diff")):
-        src = os.path.join(ROOT, "seeded", f"{pid}-{which}")
+    src = os.path.join(ROOT, "seeded", f"{pid}-{which}")
+    for cand in (f"/tmp/mut-c{pid[1:]}-out/{which}", f"/tmp/mut2-c{pid[1:]}-out/{which}"):
+        if os.path.exists(os.path.join(cand, "patch.diff")):
+            src = cand
+            break
     wt = f"/tmp/wt-eval-{pid.lower()}-{which.lower()}"
     sh(f"git -C /repo worktree remove --force {wt}", "/")
     rc, out = sh(f"git -C /repo worktree add --detach {wt} HEAD", "/")
